@@ -244,7 +244,9 @@ class Table(Selectable):
         return not self.__eq__(other)
 
     def __hash__(self) -> int:
-        return hash(str(self))
+        # exactly what __eq__ compares (a temporal FOR clause is not part of a table's identity)
+        schema = self._schema.get_sql(DEFAULT_SQL_CONTEXT) if self._schema is not None else None
+        return hash((self._table_name, schema, self.alias))
 
     def select(self, *terms: Sequence[int | float | str | bool | Term | Field]) -> "QueryBuilder":
         """
